@@ -175,6 +175,20 @@ def run(rep, repo, tier):
               observed="min()=%s, outputs reach %s" % (mn, lo), facts=facts)
   rep.extra["configuration_points"] = n
   rep.extra["skipped_max_value_below_smallest_code"] = skipped
+  # R6: if a po2 quantizer has (or gains) the adjustment hook that layers
+  # call on their weight quantizers, the adjusted object must equal the
+  # quantizer constructed with the adjusted options (rule shared with C05)
+  from .c05 import rule_installed
+
+  def po2_configs(cls, tier_):
+    for bits, mv in itertools.product((2, 3, 4, 6), (None, F(1), F(4))):
+      kw = dict(bits=bits, max_value=mv)
+      yield kw
+      if cls == "quantized_relu_po2":
+        yield dict(kw, negative_slope=F(1, 4))
+  rep.extra["installed_po2_configurations"] = rule_installed(
+      rep, repo, ("quantized_po2", "quantized_relu_po2"), "R6", tier,
+      po2_configs)
   rep.require_instances("R1", 150)
   rep.require_instances("R2", 150)
   rep.require_instances("R3", 150)
